@@ -60,7 +60,7 @@ ASSUMPTIONS = [
     "reference provider protocol: every offered action is acknowledged running before anything else happens",
     "twin scenarios: acyclic, single-writer publishes, per-task outcomes (so that the twin differs only by the pause)",
 ]
-FAM = progs.family(p_items=0.35, p_intermediate=0.15, intermediate_statuses=["paused", "paused", "running"],
+FAM = progs.family(p_item_mix=0.3, p_items=0.4, p_intermediate=0.15, intermediate_statuses=["paused", "paused", "running"],
                    unique_writers=True, per_task=True, p_loop=0.0, p_late_join=0.0, p_other_abend=0.0,
                    p_fail=0.12, p_item_fail=0.25, p_retry=0.12, p_cmd=0.2, n_tasks=(2, 7), w_ctrl=1.2,
                    w_rerun=0.0, w_malformed=0.05, steps=(15, 60))
@@ -80,7 +80,7 @@ def nontrivial(r):
 def run(ctx):
     fam = dict(FAM, tier=ctx["tier"])
     return common.conductor_run(
-        ctx, "C09", fam, common.project_full, monitors.c09, features, nontrivial, 120, 1500,
+        ctx, "C09", fam, common.project_full, monitors.c09, features, nontrivial, 160, 1500,
         rule="generated definitions; (a) random history dense in pause/resume requests compared with the Coq model "
              "after every API call; (b) twin simulation: pause before sampled/every event, resume at rest, compared "
              "with the unpaused simulation; non-trivial = at least one twin actually paused and resumed")
